@@ -676,6 +676,8 @@ pub fn core(tier: Tier) -> Vec<Arc<dyn Scenario>> {
 pub fn all_scenarios(tier: Tier) -> Vec<Arc<dyn Scenario>> {
     let mut v = grid(tier);
     v.extend(core(tier));
+    v.extend(super::c12f::grid(tier));
+    v.extend(super::c12f::core(tier));
     v
 }
 
@@ -683,11 +685,15 @@ pub fn run(tier: Tier, seed: u64) -> i32 {
     let mut rep = Report::new("C12", tier, seed);
     let known = known_sigs("C12");
     let q = tier == Tier::Quick;
-    let p0 = Params { max_dev: if q { 0 } else { 1 }, seeds: vec![seed, seed + 1], time_limit: Duration::from_secs(if q { 20 } else { 600 }), ..Default::default() };
+    let pf = Params { max_dev: 0, seeds: vec![seed], time_limit: Duration::from_secs(if q { 10 } else { 300 }), ..Default::default() };
+    rep.add("remote functions RFn / RFnMut / RFnOnce: local and remote callers, calls abandoned at every poll, gated executions, connection cut at every frame", explore("C12", super::c12f::grid(tier), pf, &known));
+    let pf1 = Params { max_dev: if q { 1 } else { 2 }, seeds: vec![seed], time_limit: Duration::from_secs(if q { 8 } else { 600 }), ..Default::default() };
+    rep.add("remote functions under schedule exploration", explore("C12", super::c12f::core(tier), pf1, &known));
+    let p0 = Params { max_dev: if q { 0 } else { 1 }, seeds: vec![seed, seed + 1], time_limit: Duration::from_secs(if q { 15 } else { 600 }), ..Default::default() };
     rep.add("server flavours x client mixes x call pairs/triples; connection cut at every frame", explore("C12", grid(tier), p0, &known));
-    let p = Params { max_dev: if q { 2 } else { 3 }, seeds: vec![seed], time_limit: Duration::from_secs(if q { 30 } else { 900 }), ..Default::default() };
+    let p = Params { max_dev: if q { 2 } else { 3 }, seeds: vec![seed], time_limit: Duration::from_secs(if q { 25 } else { 900 }), ..Default::default() };
     rep.add("concurrent clients under schedule exploration", explore("C12", core(tier), p, &known));
-    rep.rule = "a case = (server flavour: by value / ref-mut / shared-mut with and without spawn / shared with and without spawn, 2-3 clients (one local, remote clones) with 1-2 calls each over {get, slow_get, add, add_nc, take}, connection cut after k frames, schedule deviations); oracle = multiset match of results to executions (at most once, own caller) + brute-force linearizability search respecting real-time order; distinct = distinct result histories; non-trivial = at least two calls returned a result".into();
+    rep.rule = "a case = (server flavour: by value / ref-mut / shared-mut with and without spawn / shared with and without spawn, 2-3 clients (one local, remote clones) with 1-2 calls each over {get, slow_get, add, add_nc, take}, connection cut after k frames, schedule deviations); oracle = multiset match of results to executions (at most once, own caller) + brute-force linearizability search respecting real-time order; distinct = distinct result histories; non-trivial = at least two calls returned a result. Remote functions: RFn with a local and remote clones calling concurrently, RFnMut and RFnOnce held remotely, calls abandoned at every poll index followed by further calls, executions optionally held at a gate between reading and writing their state (opened by the harness at quiescence), connection cut after k frames; oracle = own result of exactly one execution, at most once, executions of RFnMut/RFnOnce never overlap and lose no update, sequential-order search.".into();
     rep.assumptions = vec!["`add` is implemented as read - yield - write so that a missing lock shows as a lost update".into(), "real-time order is taken from the scheduler's step counter at invocation and response".into()];
     rep.finish()
 }
